@@ -31,6 +31,7 @@ import (
 	"fmt"
 	"io"
 	"os"
+	"os/exec"
 	"os/signal"
 	"path"
 	"runtime"
@@ -53,6 +54,9 @@ type vStoreOp struct {
 	//   filedir  the directory path is replaced by a regular file (ENOTDIR)
 	//   rmdir    the directory is removed for good
 	//   fsize    RLIMIT_FSIZE = 1 MiB: a large write is cut short, the next write fails with EFBIG
+	//   rofs     the file system holding the directory (a tmpfs mounted by the parent) is remounted read-only (EROFS)
+	//   immutable  chattr +i on the ClientConf file: the final rename fails (EPERM)
+	//   (a full file system needs no step here: the parent mounts a 1 MiB tmpfs and the plan stores megabytes)
 	Env string `json:"env"`
 }
 
@@ -228,6 +232,12 @@ func vEnvFault(t vFataler, dir, env string) func() {
 	case "rmdir":
 		must(os.RemoveAll(dir))
 		return func() {}
+	case "rofs":
+		must(syscall.Mount("none", dir, "", syscall.MS_REMOUNT|syscall.MS_RDONLY, ""))
+		return func() { must(syscall.Mount("none", dir, "", syscall.MS_REMOUNT, "")) }
+	case "immutable":
+		must(exec.Command("chattr", "+i", path.Join(dir, "ClientConf")).Run())
+		return func() { must(exec.Command("chattr", "-i", path.Join(dir, "ClientConf")).Run()) }
 	case "fsize":
 		var old syscall.Rlimit
 		must(syscall.Getrlimit(syscall.RLIMIT_FSIZE, &old))
